@@ -562,7 +562,7 @@ func c11Advertised(c *Ctx) {
 			panic(err)
 		}
 		N := pb.RingQ().NthRoot()
-		lim := c.Scale(40, 80)
+		lim := c.Scale(40, 160)
 		pairs := c11Pairs(lim)
 		extra := [][2]int{{0, 3}, {3, 0}, {-1, 5}, {5, -1}, {-3, 7}, {1 << 62, 5}, {-(1 << 62), 3}, {1, 1 << 20}, {1 << 40, 1 << 22},
 			{pb.N() / 2, 2}, {pb.N(), 1}, {1, pb.N()}, {1, pb.N() / 2}, {1, pb.N()/2 + 1}, {2, pb.N() / 2}, {math.MaxInt64, 3}, {math.MinInt64, 3}, {3, 1 << 61}}
@@ -658,7 +658,8 @@ func c11Evaluators(c *Ctx) {
 	specs := []spec{{"bgv", 4, true}, {"bgv", 5, true}, {"ckks", 4, true}, {"ckks", 5, true}, {"ckks", 6, true}, {"ckksci", 4, true}, {"ckksci", 5, true},
 		{"bgv", 4, false}, {"ckks", 4, false}, {"ckksci", 4, false}}
 	if c.Thorough() {
-		specs = append(specs, spec{"bgv", 6, true}, spec{"ckks", 7, true}, spec{"ckksci", 6, true}, spec{"bgv", 5, false}, spec{"ckks", 5, false}, spec{"ckks", 6, false}, spec{"ckksci", 5, false}, spec{"bgv", 6, false})
+		specs = append(specs, spec{"bgv", 6, true}, spec{"ckks", 7, true}, spec{"ckksci", 6, true}, spec{"bgv", 5, false}, spec{"ckks", 5, false}, spec{"ckks", 6, false}, spec{"ckksci", 5, false}, spec{"bgv", 6, false},
+			spec{"bgv", 7, true}, spec{"ckks", 8, true}, spec{"ckksci", 7, true}, spec{"bgv", 8, true}, spec{"ckks", 9, true})
 	}
 	for _, s := range specs {
 		switch s.kind {
